@@ -8,7 +8,8 @@ read under beff's stated runtime conventions
 and two readings fixed here and documented in DESIGN.md:
   (S4) object types / interfaces / records denote non-array, non-null `typeof "object"` values;
   (S5) a template literal denotes the strings that match it ENTIRELY, with `${number}` = digits with an optional
-       fraction, `${string}` = any string without line terminators (what beff documents; TypeScript is wider).
+       fraction, `${string}` = any string without line terminators (what beff documents; TypeScript is wider);
+  (S6) a tuple element missing from a shorter array is read as `undefined` (the tuple analogue of S2).
 It is written independently of the compiler model: no IR, no printer, generics by syntactic substitution.
 -/
 namespace BeffVerif
@@ -114,7 +115,31 @@ def tplFull (tpl : Tpl) (s : String) : Bool :=
 
 def isNumericKey (k : String) : Bool :=
   -- keys that are the canonical string of a number (enough for the generators: non-negative integers)
-  !k.isEmpty && k.toList.all Char.isDigit && (k == "0" || k.front != '0')
+  !k.toList.isEmpty && k.toList.all Char.isDigit && (k == "0" || k.toList.head? != some '0')
+
+/-- membership in an object shape (S2, S3, S4), given the membership function for the component types -/
+def memShapeWith (m : Ty → JsVal → Option Bool) (sh : Option (List (String × Bool × Ty) × Option (Ty × Ty)))
+    (v : JsVal) : Option Bool :=
+  match sh with
+  | none => none
+  | some (ms, ix) =>
+    if !(v.isObjectLike && !v.isArray) then some false else
+    let declared := ms.foldl (fun acc mb =>
+      let x := v.getProp mb.1
+      match acc, (if mb.2.1 && x.isNullish then some true else m mb.2.2 x) with
+      | some a, some b => some (a && b)
+      | _, _ => none) (some true)
+    match ix with
+    | none => declared
+    | some (kt, vt) =>
+      let extra := v.ownKeys.filter (fun k => !(ms.any (fun mb => mb.1 == k)))
+      extra.foldl (fun acc k =>
+        let keyOk : Option Bool := match kt with
+          | .kw "number" => some (isNumericKey k)
+          | _ => m kt (.str k)
+        match acc, keyOk, m vt (v.getProp k) with
+        | some a, some b, some c => some (a && b && c)
+        | _, _, _ => none) declared
 
 /-- ⟦t⟧ᵀˢ ∋ v -/
 def mem (decls : List Decl) : Nat → Ty → JsVal → Option Bool
@@ -145,10 +170,11 @@ def mem (decls : List Decl) : Nat → Ty → JsVal → Option Bool
       | _ => some false
     | .tuple pre rest => match v with
       | .arr items =>
-        if items.length < pre.length then some false
-        else if rest.isNone && items.length > pre.length then some false
+        -- (S6) a missing slot is read as `undefined`, like a missing property
+        if rest.isNone && items.length > pre.length then some false
         else
-          let heads := (pre.zip items).foldl (fun acc p => match acc, mem decls n p.1 p.2 with
+          let heads := (pre.zip (List.range pre.length)).foldl (fun acc p =>
+            match acc, mem decls n p.1 (items.getD p.2 .undef) with
             | some a, some b => some (a && b)
             | _, _ => none) (some true)
           match heads, rest with
@@ -177,35 +203,58 @@ def mem (decls : List Decl) : Nat → Ty → JsVal → Option Bool
     | .ref name args =>
       match decls.find? (fun d => d.name == name) with
       | some (.alias _ ps body) => mem decls n (subst (ps.zip args) body) v
-      | some (.iface _ _ _ _) => memShape n (shape decls 50 t) v
+      | some (.iface _ _ _ _) => memShapeWith (mem decls n) (shape decls 50 t) v
       | none => none
-    | .obj _ _ => memShape n (shape decls 50 t) v
+    | .obj _ _ => memShapeWith (mem decls n) (shape decls 50 t) v
     | .bi nm _ =>
       if Lower.typedArrayNames.contains nm then some (match v with | .typed c _ => c == nm | _ => false)
-      else memShape n (shape decls 50 t) v
-where
-  /-- membership in an object shape (S2, S3, S4) -/
-  memShape (n : Nat) (sh : Option (List (String × Bool × Ty) × Option (Ty × Ty))) (v : JsVal) : Option Bool :=
-    match sh with
-    | none => none
-    | some (ms, ix) =>
-      if !(v.isObjectLike && !v.isArray) then some false else
-      let declared := ms.foldl (fun acc m =>
-        let x := v.getProp m.1
-        match acc, (if m.2.1 && x.isNullish then some true else mem decls n m.2.2 x) with
-        | some a, some b => some (a && b)
-        | _, _ => none) (some true)
-      match ix with
-      | none => declared
-      | some (kt, vt) =>
-        let extra := v.ownKeys.filter (fun k => !(ms.any (fun m => m.1 == k)))
-        extra.foldl (fun acc k =>
-          let keyOk : Option Bool := match kt with
-            | .kw "number" => some (isNumericKey k)
-            | _ => mem decls n kt (.str k)
-          match acc, keyOk, mem decls n vt (v.getProp k) with
-          | some a, some b, some c => some (a && b && c)
-          | _, _, _ => none) declared
+      else memShapeWith (mem decls n) (shape decls 50 t) v
+
+/-! ### named hypotheses of the partial C01 theorem (known deviations of the current code from ⟦·⟧ᵀˢ) -/
+
+mutual
+def anyTy (p : Ty → Bool) : Ty → Bool
+  | .array t => p (.array t) || anyTy p t
+  | .tuple pre rest => p (.tuple pre rest) || anyTyL p pre || anyTyO p rest
+  | .obj ms ix => p (.obj ms ix) || anyTyM p ms || anyTyI p ix
+  | .union ts => p (.union ts) || anyTyL p ts
+  | .inter ts => p (.inter ts) || anyTyL p ts
+  | .ref n args => p (.ref n args) || anyTyL p args
+  | .bi n args => p (.bi n args) || anyTyL p args
+  | .paren t => p (.paren t) || anyTy p t
+  | .readonly t => p (.readonly t) || anyTy p t
+  | t => p t
+def anyTyL (p : Ty → Bool) : List Ty → Bool
+  | [] => false
+  | t :: ts => anyTy p t || anyTyL p ts
+def anyTyO (p : Ty → Bool) : Option Ty → Bool
+  | none => false
+  | some t => anyTy p t
+def anyTyM (p : Ty → Bool) : List (String × Bool × Ty) → Bool
+  | [] => false
+  | (_, _, t) :: ms => anyTy p t || anyTyM p ms
+def anyTyI (p : Ty → Bool) : Option (Ty × Ty) → Bool
+  | none => false
+  | some (k, v) => anyTy p k || anyTy p v
+end
+
+def anyInProg (p : Ty → Bool) (prog : Prog) : Bool :=
+  prog.exports.any (fun e => anyTy p e.2) || prog.decls.any fun d => match d with
+    | .alias _ _ b => anyTy p b
+    | .iface _ _ ext ms => anyTyL p ext || anyTyM p ms
+
+/-- hypothesis `NoNumberKey` (D21): no index signature / Record keyed by `number` -/
+def noNumberKey (prog : Prog) : Bool :=
+  !anyInProg (fun t => match t with
+    | .obj _ (some (.kw "number", _)) => true
+    | .bi "Record" [.kw "number", _] => true
+    | _ => false) prog
+
+/-- hypothesis `IntersectionsOfObjects` (D22): every intersection member has an object shape -/
+def intersectionsOfObjects (prog : Prog) : Bool :=
+  !anyInProg (fun t => match t with
+    | .inter ts => ts.any (fun m => (shape prog.decls 50 m).isNone)
+    | _ => false) prog
 
 end Spec
 end BeffVerif
